@@ -433,7 +433,7 @@ fn judge_std(
 
 #[cfg(feature = "xen")]
 fn xen_part(ctx: &Ctx, _thorough: bool) {
-    use crate::xen_emu::Emu;
+    use crate::xen_emu::{DevEvent, Emu};
     use vm_memory::MmapRange;
     let emu = Emu::new(64);
     // guest bases within +-2 pages of the top of the address space (and with bit 63 set or not),
@@ -588,7 +588,13 @@ fn xen_part(ctx: &Ctx, _thorough: bool) {
                             }
                         }
                     }
-                    let pe = std::mem::take(&mut emu.state.borrow_mut().protocol_errors);
+                    let mut pe = std::mem::take(&mut emu.state.borrow_mut().protocol_errors);
+                    // a foreign mapping asks privcmd for the frames of its own guest range
+                    if let Some(DevEvent::PrivcmdBatch { first_pfn, num, ok: true }) = emu.take_log().iter().find(|e| matches!(e, DevEvent::PrivcmdBatch { .. })) {
+                        if *num > 0 && *first_pfn != 0x8000 / 4096 {
+                            pe.push(format!("the privcmd batch names frame {:#x} for a region at guest address 0x8000", first_pfn));
+                        }
+                    }
                     if !pe.is_empty() {
                         fail(ctx, "C15/xen/device-protocol", format!("{:?}", pe), rp());
                     }
